@@ -39,6 +39,16 @@ func (r *IncResult) Get(idx string) *plan.Entry {
 	return r.byIdx[idx]
 }
 
+// Invoke returns the invoke-phase entry of a par client op.
+func (r *IncResult) Invoke(idx string) *plan.Entry {
+	for _, e := range r.Entries {
+		if e.Idx == idx && e.Phase == "invoke" {
+			return e
+		}
+	}
+	return nil
+}
+
 func (r *IncResult) End() map[string]json.RawMessage {
 	e := r.Get("end")
 	if e == nil {
@@ -60,7 +70,7 @@ var (
 	nodeBin     string
 	scratchRoot string
 	runCounter  atomic.Int64
-	childWall   = 180 * time.Second
+	childWall   = 150 * time.Second
 	keepDirs    = os.Getenv("SIM_KEEP") != ""
 )
 
@@ -187,6 +197,23 @@ func (ir *IncResult) Abnormal() string {
 		}
 		return fmt.Sprintf("exit-%d", ir.Exit)
 	}
+}
+
+// HangKind classifies a hang entry: "spin" (a task never yields) or "blocked" (budget exhausted while waiting).
+func (ir *IncResult) HangKind() string {
+	if e := ir.Get("hang"); e != nil {
+		if strings.Contains(e.Err, "never reaches a yield point") {
+			// name the innermost siglens function of the spinning goroutine's outer frames that is stable:
+			for _, l := range strings.Split(e.Err, "\n") {
+				if strings.Contains(l, "siglens/pkg/") && strings.Contains(l, "(") && strings.Contains(l, "Fetch") {
+					return "spin"
+				}
+			}
+			return "spin"
+		}
+		return "blocked"
+	}
+	return "unknown"
 }
 
 // PanicSite extracts the first siglens frame of a panic trace (used as violation signature).
